@@ -86,6 +86,15 @@ class Spec:
         """(label, real, specified) triples compared after the call (default: every argument)."""
         return None
 
+    def body_slice(self, node):
+        """Optional: verify only a suffix of the function body. Return (statements, description) or None.
+        The statements before the slice are NOT verified; ``slice_env`` supplies the values they would have produced
+        (stated as an assumption in the evidence)."""
+        return None
+
+    def slice_env(self, cx, a):
+        return {}
+
     # --- call-site use (modular)
     def as_callee(self):
         spec = self
@@ -305,7 +314,20 @@ def run_unit(spec: Spec, repo: Repo | None = None, timeout_s=20.0, want_smt2=Fal
             args, kwargs = spec.call_args(a)
             outcome = None
             try:
-                r = interp.run_function(pf, args, kwargs)
+                sl = spec.body_slice(node)
+                if sl is not None:
+                    stmts, desc = sl
+                    note = f"SLICE of {spec.func}: only {desc} is verified; the statements before it are replaced by the contract's slice_env"
+                    if note not in res.notes:
+                        res.notes.append(note)
+                    env = dict(spec.slice_env(cx, a))
+                    try:
+                        interp.exec_block(stmts, env, mod)
+                        r = None
+                    except ReturnSignal as rs:
+                        r = rs.value
+                else:
+                    r = interp.run_function(pf, args, kwargs)
                 outcome = ("return", r)
             except PyRaise as e:
                 outcome = ("raise", e.cls, e.pargs)
